@@ -493,3 +493,36 @@ Theorem C09_trigger_retval_format_legacy_refuted :
   read_args true (merge_opts (reader_opts_legacy name_x)) (a20_payload ++ next_rec) <> Some (a20_payload, next_rec).
 Proof. exact trigger_retval_format_legacy_refuted. Qed.
 Print Assumptions C09_trigger_retval_format_legacy_refuted.
+
+(* format e:<enum> (convert_enum_val: replay, dump): for EVERY enumerator table and EVERY recorded value the names
+   shown are enumerators of the table and the display - a name, names joined by | plus a hex remainder, or a number -
+   stands for the value: equal to it modulo 2^64 (the arithmetic of a C long), or, for a value 2^31 .. 2^32-1, the
+   enumerator equal to the int in its low half (a negative enumerator of an int-sized enum) *)
+Theorem C09_enum_display_denotes : forall t v,
+  let d := conv_enum t v in
+  (forall e, In e (names_of d) -> In e t) /\
+  (eqm64 (denote d) v \/ (int_range v = true /\ denote d = v - 2 ^ 32)%Z).
+Proof. exact enum_display_denotes. Qed.
+Print Assumptions C09_enum_display_denotes.
+
+(* a display that cuts the recorded value to an int first: M_SYNC = 0x80000000 becomes 0xffffffff80000000,
+   SPAN_4G = 2^32 becomes SPAN_NONE *)
+Theorem C09_enum_int_cast_refuted :
+  enum_text (conv_enum mode_t 0x80000000) = [77; 95; 83; 89; 78; 67] /\
+  enum_text (conv_enum mode_t 0x80000002) = [77; 95; 83; 89; 78; 67; 124; 77; 95; 87; 82; 73; 84; 69] /\
+  enum_text (conv_enum span_t 0x100000000) = [83; 80; 65; 78; 95; 52; 71] /\
+  enum_text (conv_enum_int mode_t 0x80000000) = [48; 120; 102; 102; 102; 102; 102; 102; 102; 102; 56; 48; 48; 48; 48; 48; 48; 48] /\
+  denote (conv_enum_int mode_t 0x80000002) <> 0x80000002%Z /\
+  enum_text (conv_enum_int span_t 0x100000000) = [83; 80; 65; 78; 95; 78; 79; 78; 69] /\
+  denote (conv_enum_int span_t 0x100000000) <> 0x100000000%Z.
+Proof. exact enum_int_cast_refuted. Qed.
+Print Assumptions C09_enum_int_cast_refuted.
+
+(* repaired in /repo: the int -3 passed in edi was shown as POS|NEG+0xfffffffb *)
+Theorem C09_enum_negative_legacy_refuted :
+  enum_text (conv_enum sgn_t 0xfffffffd) = [78; 69; 71] /\ denote (conv_enum sgn_t 0xfffffffd) = (-3)%Z /\
+  enum_text (conv_enum_legacy sgn_t 0xfffffffd) =
+    [80; 79; 83; 124; 78; 69; 71; 43; 48; 120; 102; 102; 102; 102; 102; 102; 102; 98] /\
+  names_of (conv_enum_legacy sgn_t 0xfffffffd) = sgn_t.
+Proof. exact enum_negative_legacy_refuted. Qed.
+Print Assumptions C09_enum_negative_legacy_refuted.
